@@ -51,6 +51,7 @@ type Exec struct {
 
 	refRoot    map[string]string // reference term -> its allocation root (see setRoot)
 	keySt      *State            // state that receives the projection instances of tuple map keys
+	inSelectEvent bool           // an event of a select case is being checked on a clone (tokens are applied by selectOp)
 	rootNum    map[string]int    // allocation root -> its allocation number
 	refUB      map[string]int    // opaque reference term -> n with term <= refK*(alloc0+n)
 	fresh      int
@@ -80,6 +81,7 @@ type Exec struct {
 	safeSeq   map[string]int
 	arrBorn   map[string]int
 	bornFacts map[string]bornFact // born-bound facts by their text (see assumeBornAxiom)
+	validFacts map[string]bool    // instances of universally valid schemas (see noteValid)
 	needElemAxiom bool
 	frameSeq  int
 	globals   map[string]*Term
@@ -608,6 +610,7 @@ func (x *Exec) loopHeader(fr *Frame, st *State, b, pred *ssa.BasicBlock, li *loo
 		x.boundValueRefs(st, fr.vals[phi])
 	}
 	x.havocLoopHeap(fr, st, li)
+	x.havocTokens(st)
 	env = x.loopEnv(fr, st, b)
 	for _, c := range invs {
 		st.Assume(x.specBool(env, c.E))
@@ -816,6 +819,10 @@ func (x *Exec) havocLoopHeap(fr *Frame, st *State, li *loopInfo) {
 							st.fwd = map[string]*fwdCache{}
 						}
 						st.fwd[n] = &fwdCache{arr: st.heap[n].S, ent: map[string]*Term{}, base: base, allFresh: true}
+						// the same fact for the solver (the cache above only serves syntactically
+						// classified references): memory that existed at entry is unchanged
+						cur := st.heap[n]
+						st.Assume(&Term{S: fmt.Sprintf("(forall ((|lo?r| Int)) (! (=> (<= |lo?r| (* %d |alloc0|)) (= (select %s |lo?r|) (select %s |lo?r|))) :pattern ((select %s |lo?r|))))", refK, cur.S, base.S, cur.S), Sort: SBool})
 					}
 				}
 			}
